@@ -180,6 +180,7 @@ def assembler_emitters(ex) -> str:
         k += 1
         contract = EMIT_CONTRACT % m.group(1)
         units, tprops = emitted_text_spec(p, a)
+        EM_INFO[f"em_{k}"] = (p, a, units, prods)
         if units is not None:
             contract += (f"        // the emitted line, as the interpreter's lexer sees it, is the source instruction in the interpreter's syntax\n"
                          f"        toks(final(out).code@.last()@) == {ex.tok_expr(units)}, //# {','.join(tprops)} asm.emitted_line_is_the_source_instruction_in_the_interpreters_syntax\n")
@@ -194,6 +195,7 @@ def assembler_emitters(ex) -> str:
 
 
 NO_TEXT_SPEC = []
+EM_INFO = {}      # em_k -> (production, action, spec units, all productions): what a replay of a refuted text obligation needs
 # ---- what the lowered line must be (C01-C08, C11, C17, C18), derived from the SOURCE FORM of the production (its signature) and
 # the interpreter's syntax, never from the action: mnemonic, then the operands in source order separated by `,`; a memory or
 # data-label operand carries its size keyword; constants in decimal.  Names are those of the pinned grammar; a symbol the
@@ -635,8 +637,8 @@ def run_for_property(pid, tier, seed, dst, root, rep, findings):
                 rep.add(oid, cname, "verus", "z3", st, r["wall"] / max(1, len(r["fns"])), f"{unit}::{f['name']}", "V")
                 rep.extra.setdefault("clause_text", {})[f"{oid}/{cname}"] = txt
                 if st == "refuted":
-                    path = record_verus(pid, unit, f, cname, txt, r)
-                    rep.violations.append({"obligation": f"{oid}/{cname}", "path": path, "confirmed": False})
+                    path, conf = record_verus(pid, unit, f, cname, txt, r, dst)
+                    rep.violations.append({"obligation": f"{oid}/{cname}", "path": path, "confirmed": conf})
                 elif st == "undecided":
                     rep.undecided.append(f"verus {unit}::{f['name']}/{cname}: resource limit")
         if ntotal == 0:
@@ -652,7 +654,7 @@ def fn_props(unit, fn):
     return d["props"]
 
 
-def record_verus(pid, unit, f, cname, txt, r):
+def record_verus(pid, unit, f, cname, txt, r, dst=None):
     d = os.path.join(os.environ.get("VERIF_REPLAY_DIR", os.path.join(VERIF, "replays")), pid)
     os.makedirs(d, exist_ok=True)
     path = os.path.join(d, f"verus_{unit}__{f['name']}__{cname.replace('#', '')}.json")
@@ -660,5 +662,22 @@ def record_verus(pid, unit, f, cname, txt, r):
            "clause": txt, "verifier_output": f["messages"][:4], "confirmed": False,
            "note": "no-failing-input-found: Verus gives no model; the obligation was discharged on the pinned tree and is no longer provable",
            "recipe": {"kind": "verus"}, "inputs": {}}
+    # emitted-text obligations: Verus gives no model, but the production's form tells which source line to try on the real assembler
+    if unit == "assembler" and f["name"] in EM_INFO and "emitted_line" in cname and dst:
+        try:
+            import replay as replay_mod
+            import text_replay
+            p, a, units, prods = EM_INFO[f["name"]]
+            if units is not None:
+                tool = replay_mod.build_tool(dst)
+                rr = text_replay.replay(tool, replay_mod.ask, p, a, units, prods)
+                if rr is not None:
+                    doc["recipe"] = {"kind": "asm", "source": rr["source"], "production": p.sig}
+                    doc["replay"] = rr
+                    doc["confirmed"] = bool(rr.get("confirmed"))
+                    if doc["confirmed"]:
+                        doc["note"] = "replayed on the real assembler: the source line of this production's form is lowered to a line whose token view differs from the interpreter's syntax for it"
+        except Exception as e:       # a replay that cannot be made never hides the violation
+            doc["replay_error"] = str(e)[:500]
     json.dump(doc, open(path, "w"), indent=1)
-    return path
+    return path, doc["confirmed"]
